@@ -468,7 +468,8 @@ theorem blob_entry (pre : List Str) (hp : nonEmptyPrefix pre = true) (hn : hasNe
 storage layout itself, not a reading of the regexps.  Every built path is in the layout (`*_layout` theorems),
 so the target below is not vacuous; the code does NOT satisfy it (known finding, see known/C38.json). -/
 
-theorem goodRepoDir_repoDir {pre repo : List Str} (c : Ctx pre repo) : goodRepoDir (repoDir pre repo) = true := by
+theorem goodRepoDir_repoDir {pre repo : List Str} (c : Ctx pre repo) (hlen : (joinSlash repo).length ≤ maxRepoLength) :
+    goodRepoDir (repoDir pre repo) = true := by
   have htw : (repoDir pre repo).takeWhile (fun x => x != sRepositories) = pre := by
     unfold repoDir
     rw [List.takeWhile_append_of_pos (fun x hx => by
@@ -483,7 +484,7 @@ theorem goodRepoDir_repoDir {pre repo : List Str} (c : Ctx pre repo) : goodRepoD
     simp
   have hre : repo.isEmpty = false := by cases hr : repo with | nil => exact absurd hr c.repo_ne | cons _ _ => rfl
   simp only [goodRepoDir, htw, hdw, goodRoot, c.pre_ok, c.pre_nl, c.repo_nl, hre, Bool.not_false, Bool.and_true, Bool.true_and,
-    Bool.and_eq_true, List.all_eq_true, Bool.not_eq_true']
+    Bool.and_eq_true, List.all_eq_true, Bool.not_eq_true', hlen, decide_true]
   refine ⟨fun x hx => c.pre_nomarker x hx, fun x hx => ?_⟩
   have := c.repo_elem x hx
   refine ⟨?_, this.2.2⟩
@@ -493,31 +494,59 @@ theorem mem_layoutKinds (f : List Str → Option (PType × Str)) (hf : f ∈ lay
     (h : f (splitOn '/' p).reverse = some r) : r ∈ layoutKinds p :=
   List.mem_filterMap.mpr ⟨f, hf, h⟩
 
+/-- a tag of the Docker grammar is in particular a valid tag in the sense of the accept-direction theorems -/
+theorem validTagB_valid (t : Str) (h : validTagB t = true) : ValidTag t := by
+  have hch : ∀ x, isTagChar x = true → x ≠ '/' ∧ x ≠ '\n' := by
+    intro x hx; constructor <;> (intro e; subst e; revert hx; decide)
+  cases t with
+  | nil => simp [validTagB] at h
+  | cons a as =>
+    simp only [validTagB, Bool.and_eq_true, List.all_eq_true, decide_eq_true_eq] at h
+    have ha : isTagChar a = true := by
+      have := h.1.1; simp only [isTagFirst, Bool.or_eq_true] at this
+      simp only [isTagChar, Bool.or_eq_true]
+      rcases this with h1 | h1
+      · exact Or.inl (Or.inl (Or.inl h1))
+      · exact Or.inl (Or.inl (Or.inr h1))
+    have hall : ∀ x ∈ a :: as, x ≠ '/' ∧ x ≠ '\n' := by
+      intro x hx
+      rcases List.mem_cons.mp hx with e | e
+      · subst e; exact hch _ ha
+      · exact hch _ (h.1.2 x e)
+    refine ⟨by simp, fun hm => (hall _ hm).1 rfl, ?_⟩
+    cases hb : hasNewline (a :: as) with
+    | false => rfl
+    | true =>
+      exfalso
+      simp only [hasNewline, KrakenModel.NamePath.hasNewline, List.any_eq_true, beq_iff_eq] at hb
+      obtain ⟨x, hx, rfl⟩ := hb
+      exact (hall _ hx).2 rfl
+
 section layout
-variable {pre repo : List Str} (c : Ctx pre repo)
-include c
+variable {pre repo : List Str} (c : Ctx pre repo) (hlen : (joinSlash repo).length ≤ maxRepoLength)
+include c hlen
 
 theorem manifestsDir_layout (st : Str) (hst : st = sTags ∨ st = sRevisions) :
     (PType.manifests, st) ∈ layoutKinds (joinSlash (repoDir pre repo ++ [sManifests, st])) := by
   have hs := split_built c [sManifests, st] (by intro x hx; rcases hst with rfl | rfl <;> (revert x; decide))
   apply mem_layoutKinds leManifestsDir (by simp [layoutEntries])
   rw [hs, List.reverse_append]
-  simp [leManifestsDir, goodRepoDir_repoDir c, hst]
+  simp [leManifestsDir, goodRepoDir_repoDir c hlen, hst]
 
-theorem tagCurrent_layout (tag : Str) (ht : ValidTag tag) :
+theorem tagCurrent_layout (tag : Str) (htb : validTagB tag = true) :
     (PType.manifests, sTags) ∈ layoutKinds (joinSlash (repoDir pre repo ++ [sManifests, sTags, tag, sCurrent, sLink])) := by
-  obtain ⟨ht1, ht2, ht3⟩ := ht
+  obtain ⟨ht1, ht2, ht3⟩ := validTagB_valid tag htb
   have hte : tag.isEmpty = false := by cases tag with | nil => exact absurd rfl ht1 | cons _ _ => rfl
   have hs := split_built c [sManifests, sTags, tag, sCurrent, sLink] (by
     intro x hx; simp only [List.mem_cons, List.not_mem_nil, or_false] at hx
     rcases hx with rfl | rfl | rfl | rfl | rfl <;> first | exact ht2 | decide)
   apply mem_layoutKinds leTagCurrent (by simp [layoutEntries])
   rw [hs, List.reverse_append]
-  simp [leTagCurrent, goodRepoDir_repoDir c, validTagB, hte, ht3]
+  simp [leTagCurrent, goodRepoDir_repoDir c hlen, htb]
 
-theorem tagIndex_layout (tag h : Str) (ht : ValidTag tag) (hh : ValidHex h) :
+theorem tagIndex_layout (tag h : Str) (htb : validTagB tag = true) (hh : ValidHex h) :
     (PType.manifests, sTags) ∈ layoutKinds (joinSlash (repoDir pre repo ++ [sManifests, sTags, tag, sIndex, sSha256, h, sLink])) := by
-  obtain ⟨ht1, ht2, ht3⟩ := ht
+  obtain ⟨ht1, ht2, ht3⟩ := validTagB_valid tag htb
   have hte : tag.isEmpty = false := by cases tag with | nil => exact absurd rfl ht1 | cons _ _ => rfl
   have hh1 := (validHex_facts h hh).1
   have hs := split_built c [sManifests, sTags, tag, sIndex, sSha256, h, sLink] (by
@@ -525,7 +554,7 @@ theorem tagIndex_layout (tag h : Str) (ht : ValidTag tag) (hh : ValidHex h) :
     rcases hx with rfl | rfl | rfl | rfl | rfl | rfl | rfl <;> first | exact ht2 | exact hh1 | decide)
   apply mem_layoutKinds leTagIndex (by simp [layoutEntries])
   rw [hs, List.reverse_append]
-  simp [leTagIndex, goodRepoDir_repoDir c, validTagB, validHexB, hte, ht3, hh.1, hh.2]
+  simp [leTagIndex, goodRepoDir_repoDir c hlen, htb, validHexB, hh.1, hh.2]
 
 theorem revision_layout (h : Str) (hh : ValidHex h) :
     (PType.manifests, sRevisions) ∈ layoutKinds (joinSlash (repoDir pre repo ++ [sManifests, sRevisions, sSha256, h, sLink])) := by
@@ -535,7 +564,7 @@ theorem revision_layout (h : Str) (hh : ValidHex h) :
     rcases hx with rfl | rfl | rfl | rfl | rfl <;> first | exact hh1 | decide)
   apply mem_layoutKinds leRevision (by simp [layoutEntries])
   rw [hs, List.reverse_append]
-  simp [leRevision, goodRepoDir_repoDir c, validHexB, hh.1, hh.2]
+  simp [leRevision, goodRepoDir_repoDir c hlen, validHexB, hh.1, hh.2]
 
 theorem layer_layout (h l : Str) (hh : ValidHex h) (hl : l = sLink ∨ l = sData) :
     (PType.layers, l) ∈ layoutKinds (joinSlash (repoDir pre repo ++ [sLayers, sSha256, h, l])) := by
@@ -545,9 +574,9 @@ theorem layer_layout (h l : Str) (hh : ValidHex h) (hl : l = sLink ∨ l = sData
     rcases hl with rfl | rfl <;> rcases hx with rfl | rfl | rfl | rfl <;> first | exact hh1 | decide)
   apply mem_layoutKinds leLayer (by simp [layoutEntries])
   rw [hs, List.reverse_append]
-  simp [leLayer, goodRepoDir_repoDir c, validHexB, hh.1, hh.2, hl]
+  simp [leLayer, goodRepoDir_repoDir c hlen, validHexB, hh.1, hh.2, hl]
 
-theorem uploadFile_layout (u d : Str) (hu : ValidUUID u) (hd : d = sData ∨ d = sStartedat) :
+theorem uploadFile_layout (u d : Str) (hu : ValidUUID u) (hub : validUUIDB u = true) (hd : d = sData ∨ d = sStartedat) :
     (PType.uploads, d) ∈ layoutKinds (joinSlash (repoDir pre repo ++ [sUploads, u, d])) := by
   obtain ⟨hu1, hu2, hu3⟩ := hu
   have hue : u.isEmpty = false := by cases u with | nil => exact absurd rfl hu1 | cons _ _ => rfl
@@ -556,9 +585,9 @@ theorem uploadFile_layout (u d : Str) (hu : ValidUUID u) (hd : d = sData ∨ d =
     rcases hd with rfl | rfl <;> rcases hx with rfl | rfl | rfl <;> first | exact hu2 | decide)
   apply mem_layoutKinds leUploadFile (by simp [layoutEntries])
   rw [hs, List.reverse_append]
-  simp [leUploadFile, goodRepoDir_repoDir c, validUUIDB, hue, hu3, hd]
+  simp [leUploadFile, goodRepoDir_repoDir c hlen, hub, hd]
 
-theorem uploadHash_layout (u a : Str) (hu : ValidUUID u) (ha : ValidAlgo a) :
+theorem uploadHash_layout (u a : Str) (hu : ValidUUID u) (hub : validUUIDB u = true) (ha : ValidAlgo a) :
     (PType.uploads, sHashstates) ∈ layoutKinds (joinSlash (repoDir pre repo ++ [sUploads, u, sHashstates, a])) := by
   obtain ⟨hu1, hu2, hu3⟩ := hu
   have haa : alnum1 a = true := ha
@@ -569,9 +598,9 @@ theorem uploadHash_layout (u a : Str) (hu : ValidUUID u) (ha : ValidAlgo a) :
     rcases hx with rfl | rfl | rfl | rfl <;> first | exact hu2 | exact ha3 | decide)
   apply mem_layoutKinds leUploadHash (by simp [layoutEntries])
   rw [hs, List.reverse_append]
-  simp [leUploadHash, goodRepoDir_repoDir c, validUUIDB, hue, hu3, haa]
+  simp [leUploadHash, goodRepoDir_repoDir c hlen, hub, haa]
 
-theorem uploadHashOffset_layout (u a o : Str) (hu : ValidUUID u) (ha : ValidAlgo a) (ho : ValidOffset o) :
+theorem uploadHashOffset_layout (u a o : Str) (hu : ValidUUID u) (hub : validUUIDB u = true) (ha : ValidAlgo a) (ho : ValidOffset o) :
     (PType.uploads, sHashstates) ∈ layoutKinds (joinSlash (repoDir pre repo ++ [sUploads, u, sHashstates, a, o])) := by
   obtain ⟨hu1, hu2, hu3⟩ := hu
   have haa : alnum1 a = true := ha
@@ -584,7 +613,7 @@ theorem uploadHashOffset_layout (u a o : Str) (hu : ValidUUID u) (ha : ValidAlgo
     rcases hx with rfl | rfl | rfl | rfl | rfl <;> first | exact hu2 | exact ha3 | exact ho1 | decide)
   apply mem_layoutKinds leUploadHashOffset (by simp [layoutEntries])
   rw [hs, List.reverse_append]
-  simp [leUploadHashOffset, goodRepoDir_repoDir c, validUUIDB, hue, hu3, haa, hoo]
+  simp [leUploadHashOffset, goodRepoDir_repoDir c hlen, hub, haa, hoo]
 
 end layout
 
